@@ -7,6 +7,7 @@
    The translator is fail-closed: whatever it cannot represent becomes one of
    the Bad_* constructors below, and every check treats a Bad_* as failure. *)
 From Coq Require Import ZArith List Bool String Ascii PrimFloat Uint63 FloatOps SpecFloat.
+From PV Require Export Units.Sig.
 Import ListNotations.
 Local Open Scope string_scope.
 
@@ -37,26 +38,6 @@ Record qmodule := mkQModule {
   qm_dir : list string            (* dir(module) *)
 }.
 
-(* ---------- the nine SI positions (SI.SIUNITS) ---------- *)
-Definition si_names : list string := ["rad"; "sr"; "kg"; "m"; "s"; "A"; "K"; "mol"; "cd"].
-Definition sig0 : list Z := [0; 0; 0; 0; 0; 0; 0; 0; 0]%Z.
-
-Fixpoint sig_zip (f : Z -> Z -> Z) (a b : list Z) : list Z :=
-  match a, b with
-  | x :: r, y :: s => f x y :: sig_zip f r s
-  | _, _ => []
-  end.
-Definition sig_add := sig_zip Z.add.
-Definition sig_sub := sig_zip Z.sub.
-Definition sig_scale (k : Z) (a : list Z) : list Z := map (Z.mul k) a.
-
-Fixpoint sig_eqb (a b : list Z) : bool :=
-  match a, b with
-  | [], [] => true
-  | x :: r, y :: s => Z.eqb x y && sig_eqb r s
-  | _, _ => false
-  end.
-
 (* ---------- dict access ---------- *)
 Definition gstr_is (s : string) (g : gstr) : bool :=
   match g with GStr t => String.eqb s t | Bad_str _ => false end.
@@ -84,6 +65,14 @@ Fixpoint clookup (i : nat) (d : list (gcls * gcls)) : option gcls :=
 
 Definition get_class (T : list qclass) (i : nat) : option qclass := nth_error T i.
 
+(* index of the class with a given Python name (used by examples only) *)
+Fixpoint find_class_from (i : nat) (n : string) (T : list qclass) : option nat :=
+  match T with
+  | [] => None
+  | c :: r => if String.eqb (qc_name c) n then Some i else find_class_from (S i) n r
+  end.
+Definition find_class (T : list qclass) (n : string) : option nat := find_class_from 0 n T.
+
 (* ---------- Quantity.sisig(): read the nine positions out of _sidict ---------- *)
 Definition cls_sig (c : qclass) : list Z :=
   map (fun u => match glookup u (qc_sidict c) with Some (GInt v) => v | _ => 0%Z end) si_names.
@@ -97,11 +86,6 @@ Definition unit_ratio (c : qclass) (u : string) : option (Z * positive) :=
   | Some (GFac _ n d) => Some (n, d)
   | _ => None
   end.
-
-(* ---------- numbering helper for the offender lists ---------- *)
-Fixpoint indexed_from {A : Type} (i : nat) (l : list A) : list (nat * A) :=
-  match l with [] => [] | x :: r => (i, x) :: indexed_from (S i) r end.
-Definition indexed {A : Type} (l : list A) := indexed_from 0 l.
 
 (* Offender lists are lists of (class index, entry index); a check holds iff
    its offender list is empty.  The harness prints the offender lists with
